@@ -16,8 +16,8 @@ def rar_params():
 
 
 class GenEnv:
-    def __init__(self, repo):
-        self.w = make_world(repo)
+    def __init__(self, repo, world=None):
+        self.w = world if world is not None else make_world(repo)
         self.m = self.w.module(MOD)
 
     def cls(self, name):
